@@ -138,6 +138,12 @@ func (g *Global) computeModSets() {
 						changed = true
 					}
 				}
+				for _, gc := range con.GhostComps {
+					if !ms.comps[gc] {
+						ms.comps[gc] = true
+						changed = true
+					}
+				}
 			}
 			if con := g.contractFor(fn); con != nil && con.HasMod {
 				// callers rely on the contract's frame; the body is checked against it
@@ -292,7 +298,11 @@ func (g *Global) modSetOfCall(caller *ssa.Function, cc *ssa.CallCommon) *ModSet 
 		return g.externalCallMods(caller, cc)
 	}
 	if con := g.contractFor(fn); con != nil && con.HasMod {
-		return g.contractStaticMods(fn, con)
+		ms := g.contractStaticMods(fn, con)
+		for _, gc := range con.GhostComps {
+			ms.comps[gc] = true
+		}
+		return ms
 	}
 	if fn.Blocks == nil {
 		return g.externalCallMods(caller, cc)
